@@ -158,6 +158,27 @@ def gen_flux_scenes(ctx, n_per_kind):
             if kind != "pixel" and i % 5 == 4 and t != "pointsource":
                 sc["interp"] = False                          # amplitudes decomposed per call; judged in 64-bit mode
             out.append(RC.cast32_scene(sc))
+    # amplitudes decomposed per call (use_interp_amps=False), where the band is tight: compact profiles (small f_out), radii far
+    # from the 1 px the interpolation table is built for
+    for kind in ("fourier", "hybrid"):
+        for i in range(max(3, n_per_kind // 4)):
+            N = [64, 65, 96][i % 3]
+            psf = RC.smooth_asym_psf(rng, [7, 8, 11][i % 3]) * float(rng.uniform(0.5, 2.0))
+            t = ["sersic", "exp", "doublesersic", "sersic_pointsource"][i % 4]
+            sc = RC.gen_scene(rng, kind, N, psf, types=[t], mode="single", suffix="", pos_styles=("frac",), n_range=(0.9, 2.5), interp=False)
+            p = sc["params"]
+            for k in p:
+                if k.startswith("r_eff"):
+                    p[k] = float(rng.uniform(3.5, N / 12))
+                if k.startswith("ellip"):
+                    p[k] = float(rng.uniform(0, 0.7))
+            p["flux"] = float(rng.uniform(10, 1000))
+            p["xc"] = float(rng.uniform(N / 2 - 3, N / 2 + 3))
+            p["yc"] = float(rng.uniform(N / 2 - 3, N / 2 + 3))
+            sc["via_model"] = bool(i % 2)
+            if kind == "hybrid":
+                sc["npr"] = int([3, 0, 1][i % 3])
+            out.append(RC.cast32_scene(sc))
     return out
 
 
